@@ -192,41 +192,51 @@ Definition content_full (text : str) : bool :=
 
 Definition is_some {A} (o : option A) : bool := match o with Some _ => true | None => false end.
 
+(** one piece of the replacement text: (it contributes a '<', the updated [seen]) *)
+Definition check_value (rec : list (str * bool) -> entity -> bool -> ires (list (str * bool)))
+           (ents : list entity) (ext : bool) (seen : list (str * bool)) (v : ent_value)
+  : ires (bool * list (str * bool)) :=
+  match v with
+  | XvCharacter num r => ibind (char_from num r) (fun c => IOk (N.eqb c 60, seen))
+  | XvEntity n =>
+    match lookup_entity2 ents n with
+    | IOk (e', d') => ibind (rec seen e' d') (fun s' => IOk (false, s'))
+    | IErr er => if ext then IOk (false, seen) else IErr er      (* WFC Entity Declared *)
+    | IPanic p => IPanic p
+    | IOof => IOof
+    end
+  | XvParameter _ => IOk (false, seen)
+  | XvText t => IOk (existsb (N.eqb 60) t, seen)
+  end.
+Fixpoint check_values (rec : list (str * bool) -> entity -> bool -> ires (list (str * bool)))
+         (ents : list entity) (ext attribute : bool) (name : str) (vs : list ent_value)
+         (seen : list (str * bool)) : ires (list (str * bool)) :=
+  match vs with
+  | [] => IOk seen
+  | v :: vs' =>
+    ibind (check_value rec ents ext seen v) (fun x =>
+    if attribute && fst x then IErr (InvalidData name)             (* WFC No < in Attribute Values *)
+    else check_values rec ents ext attribute name vs' (snd x))
+  end.
+
 Fixpoint check_entity_ref (fuel : nat) (ents : list entity) (ext attribute : bool)
          (seen : list (str * bool)) (e : entity) (declared : bool) : ires (list (str * bool)) :=
   match fuel with
   | O => IOof
   | S f =>
-    if negb declared then IOk seen
-    else if is_some (en_notation e) then IErr (InvalidData (en_name e))
-    else if attribute && is_some (en_system e) then IErr (InvalidData (en_name e))
+    if negb declared then IOk seen                                               (* predefined *)
+    else if is_some (en_notation e) then IErr (InvalidData (en_name e))          (* WFC Parsed Entity *)
+    else if attribute && is_some (en_system e) then IErr (InvalidData (en_name e)) (* No External Entity References *)
     else match seen_get seen (en_name e) with
     | Some true => IOk seen
-    | Some false => IErr (InvalidData (en_name e))
+    | Some false => IErr (InvalidData (en_name e))                               (* WFC No Recursion *)
     | None =>
       let vs := match en_values e with Some l => l | None => [] end in
       ibind (if attribute then IOk tt
              else ibind (replacement_text vs) (fun t =>
                   if content_full t then IOk tt else IErr (InvalidData (en_name e)))) (fun _ =>
-      ibind ((fix go (vs : list ent_value) (seen : list (str * bool)) : ires (list (str * bool)) :=
-                match vs with
-                | [] => IOk seen
-                | v :: vs' =>
-                  ibind (match v with
-                         | XvCharacter num r => ibind (char_from num r) (fun c => IOk (N.eqb c 60, seen))
-                         | XvEntity n =>
-                           match lookup_entity2 ents n with
-                           | IOk (e', d') =>
-                             ibind (check_entity_ref f ents ext attribute seen e' d') (fun s' => IOk (false, s'))
-                           | IErr er => if ext then IOk (false, seen) else IErr er
-                           | IPanic p => IPanic p
-                           | IOof => IOof
-                           end
-                         | XvParameter _ => IOk (false, seen)
-                         | XvText t => IOk (existsb (N.eqb 60) t, seen)
-                         end) (fun x =>
-                  if attribute && fst x then IErr (InvalidData (en_name e)) else go vs' (snd x))
-                end) vs ((en_name e, false) :: seen)) (fun seen2 =>
+      ibind (check_values (check_entity_ref f ents ext attribute) ents ext attribute (en_name e) vs
+                          ((en_name e, false) :: seen)) (fun seen2 =>
       IOk ((en_name e, true) :: seen2)))
     end
   end.
@@ -292,6 +302,31 @@ Definition build_attrs (ents : list entity) (ext : bool) (l : list attribute) : 
 Definition text_item (o : option str) : list item :=
   match o with Some (c :: s) => [ItText (c :: s)] | _ => [] end.
 
+(** the children loop of XmlElement::node; [rec] builds a child element (a section variable so
+    that [build_cells rec] is [fix] applied outside: the guard checker then accepts the nested
+    recursion of [build_element]) *)
+Section Cells.
+Variable rec : element -> ires item.
+Variable ents : list entity.
+Variable ext : bool.
+Definition build_child (ch : contents_of element) : ires item :=
+  match ch with
+  | CsElement e' => rec e'
+  | CsReference (RefChar num r) => ibind (char_from num r) (fun c => IOk (ItCharRef [c] num r))
+  | CsReference (RefEntity name) => ibind (resolve_ref ents ext false name) (fun x => IOk (ItUnexpanded x))
+  | CsCData s => IOk (ItCData s)
+  | CsPI p => IOk (ItPI p)
+  | CsComment s => IOk (ItComment s)
+  end.
+Fixpoint build_cells (l : list (contents_of element * option str)) : ires (list item) :=
+  match l with
+  | [] => IOk []
+  | (ch, tail) :: l' =>
+    ibind (build_child ch) (fun it =>
+    ibind (build_cells l') (fun r => IOk (it :: text_item tail ++ r)))
+  end.
+End Cells.
+
 Fixpoint build_element (ents : list entity) (ext : bool) (e : element) : ires item :=
   match e with
   | Element n attrs c =>
@@ -299,20 +334,7 @@ Fixpoint build_element (ents : list entity) (ext : bool) (e : element) : ires it
     match c with
     | None => IOk (ItElement (fst (qname_parts n)) (snd (qname_parts n)) attrs' [])
     | Some (head, cells) =>
-      ibind ((fix cells_go (l : list (contents_of element * option str)) : ires (list item) :=
-                match l with
-                | [] => IOk []
-                | (ch, tail) :: l' =>
-                  ibind (match ch with
-                         | CsElement e' => build_element ents ext e'
-                         | CsReference (RefChar num r) => ibind (char_from num r) (fun c => IOk (ItCharRef [c] num r))
-                         | CsReference (RefEntity name) => ibind (resolve_ref ents ext false name) (fun x => IOk (ItUnexpanded x))
-                         | CsCData s => IOk (ItCData s)
-                         | CsPI p => IOk (ItPI p)
-                         | CsComment s => IOk (ItComment s)
-                         end) (fun it =>
-                  ibind (cells_go l') (fun r => IOk (it :: text_item tail ++ r)))
-                end) cells) (fun ch =>
+      ibind (build_cells (build_element ents ext) ents ext cells) (fun ch =>
       IOk (ItElement (fst (qname_parts n)) (snd (qname_parts n)) attrs' (text_item head ++ ch)))
     end)
   end.
@@ -463,6 +485,19 @@ Definition normalize_ws (s : str) : str :=
 
 (** [checked] = the code after ed2c470 (a name already on the path of the expansion is an
     error); [pinned_pe] = the code before bd92e3d.  One unit of fuel per entity entered. *)
+Definition expand_value (rec : str -> ires str) (pinned_pe : bool) (v : ent_value) : ires str :=
+  match v with
+  | XvCharacter num r => ibind (char_from num r) (fun c => IOk [c])
+  | XvEntity n => rec n
+  | XvParameter n => if pinned_pe then IPanic PsParameterEntityValue else IErr (InvalidData (s_pe_ref n))
+  | XvText s => IOk (normalize_ws s)
+  end.
+Fixpoint expand_values (rec : str -> ires str) (pinned_pe : bool) (vs : list ent_value) : ires str :=
+  match vs with
+  | [] => IOk []
+  | v :: vs' => ibind (expand_value rec pinned_pe v) (fun a =>
+                ibind (expand_values rec pinned_pe vs') (fun b => IOk (a ++ b)))
+  end.
 Fixpoint expand_gen (checked pinned_pe : bool) (fuel : nat) (ents : list entity) (path : list str) (name : str)
   : ires str :=
   match fuel with
@@ -470,17 +505,8 @@ Fixpoint expand_gen (checked pinned_pe : bool) (fuel : nat) (ents : list entity)
   | S f =>
     if checked && existsb (str_eqb name) path then IErr (InvalidData (s_ge_ref name)) else
     ibind (lookup_entity ents name) (fun e =>
-      (fix go (vs : list ent_value) : ires str :=
-         match vs with
-         | [] => IOk []
-         | v :: vs' =>
-           ibind (match v with
-                  | XvCharacter num r => ibind (char_from num r) (fun c => IOk [c])
-                  | XvEntity n => expand_gen checked pinned_pe f ents (name :: path) n
-                  | XvParameter n => if pinned_pe then IPanic PsParameterEntityValue else IErr (InvalidData (s_pe_ref n))
-                  | XvText s => IOk (normalize_ws s)
-                  end) (fun a => ibind (go vs') (fun b => IOk (a ++ b)))
-         end) (match en_values e with Some l => l | None => [] end))
+    expand_values (expand_gen checked pinned_pe f ents (name :: path)) pinned_pe
+                  (match en_values e with Some l => l | None => [] end))
   end.
 
 (** enough for every table when recursion is checked (Proofs/Expansion.v) *)
